@@ -9,6 +9,8 @@ from sa.guards import names_in
 from sa.index import own_nodes
 from sa.report import Ctx
 
+from .common import generic_sweeps
+
 from .sat_common import SatRoles, _enclosing_block, check_add_sites, check_backtrack
 
 EXPLANATION = (
@@ -33,6 +35,7 @@ def run(ctx: Ctx):
     check_blocking(ctx, roles)
     check_unassign_heap(ctx, roles)
     check_model_record(ctx, roles)
+    generic_sweeps(ctx, skip_stutter_modules=("solvor/sat.py",))
 
 
 def check_blocking(ctx: Ctx, roles: SatRoles):
